@@ -56,6 +56,8 @@ def handler_specs(draw, i):
          'when': draw(st.sampled_from([None, None, '@cb:true', '@cb:false'])),
          'field': draw(st.sampled_from([None, None, None, 'present', 'is1'])),
          'outcome': draw(st.sampled_from(['ok', 'ok', 'ok', 'admission', 'admission', 'perm', 'temp', 'err'])),
+         # (operators raise their own subclasses of kopf's error classes: they are admission/permanent/temporary errors just as well)
+         'subclass': draw(st.booleans()),
          'message': draw(st.sampled_from(['', 'denied', 'нельзя', 'x' * 30])),
          'code': draw(st.sampled_from([None, 0, 400, 403, 422, 500])),
          'warnings': draw(st.lists(st.sampled_from(['w1', 'w2', 'ü-warn', '']), max_size=2)),
@@ -133,6 +135,14 @@ def ref_selected(h, sc):
 
 
 ERR_RANK = {'admission': 0, 'perm': 1, 'temp': 2, 'err': 9}
+_SUBCLASSES = {}
+
+
+def _subclass(base):
+    if base not in _SUBCLASSES:
+        _SUBCLASSES[base] = type('Operators' + base.__name__, (base,), {})
+    return _SUBCLASSES[base]
+
 
 
 def model_patch_set(model, zone, path, value):
@@ -179,11 +189,11 @@ def build(sc, log):
                     kwargs = {}
                     if h['code'] is not None:
                         kwargs['code'] = h['code']
-                    raise kopf.AdmissionError(h['message'], **kwargs)
+                    raise (_subclass(kopf.AdmissionError) if h.get('subclass') else kopf.AdmissionError)(h['message'], **kwargs)
                 if o == 'perm':
-                    raise kopf.PermanentError(h['message'])
+                    raise (_subclass(kopf.PermanentError) if h.get('subclass') else kopf.PermanentError)(h['message'])
                 if o == 'temp':
-                    raise kopf.TemporaryError(h['message'], delay=1)
+                    raise (_subclass(kopf.TemporaryError) if h.get('subclass') else kopf.TemporaryError)(h['message'], delay=1)
                 if o == 'err':
                     raise ScriptedError(h['message'])
             fn.__name__ = fn.__qualname__ = h['id']
